@@ -11,7 +11,7 @@ flock 8
 export FC_REPO_LOCK_HELD=1
 if [ -n "$(git -C /repo status --porcelain --untracked-files=no)" ]; then echo "/repo not clean"; exit 2; fi
 git -C /repo apply "$patch" || { echo "patch does not apply"; exit 2; }
-trap 'git -C /repo checkout -- . ; echo "[reverted]"' EXIT
+trap 'git -C /repo checkout -- . ; git -C /repo clean -fdq src tests ; echo "[reverted]"' EXIT
 for p in "$@"; do
   echo "=== $p"
   ./check "$p" --tier quick 2>&1 | tail -4
